@@ -23,6 +23,7 @@ const (
 )
 
 type jv struct {
+	src string // values read by parseJSON: the source text of the value
 	k   int
 	b   bool
 	s   string // string value or number text
@@ -267,7 +268,17 @@ func (p *jparser) lit(s string) bool {
 	return false
 }
 
+// value parses one value and records its source text.
 func (p *jparser) value(depth int) (*jv, bool) {
+	start := p.i
+	v, ok := p.value1(depth)
+	if ok && v != nil {
+		v.src = string(p.d[start:p.i])
+	}
+	return v, ok
+}
+
+func (p *jparser) value1(depth int) (*jv, bool) {
 	if p.i >= len(p.d) || depth > 200 {
 		return nil, false
 	}
@@ -671,4 +682,31 @@ func docTokens(d *jv) (string, bool) {
 		}
 	}
 	return b.String(), true
+}
+
+// stripSpace removes the insignificant white space of a JSON text (outside strings):
+// what json.Indent added to a compact text.
+func stripSpace(t string) string {
+	var b strings.Builder
+	in := false
+	for i := 0; i < len(t); i++ {
+		c := t[i]
+		switch {
+		case in:
+			b.WriteByte(c)
+			if c == '\\' && i+1 < len(t) {
+				i++
+				b.WriteByte(t[i])
+			} else if c == '"' {
+				in = false
+			}
+		case c == '"':
+			in = true
+			b.WriteByte(c)
+		case c == ' ' || c == '\t' || c == '\n' || c == '\r':
+		default:
+			b.WriteByte(c)
+		}
+	}
+	return b.String()
 }
